@@ -252,7 +252,7 @@ def run_case(spec):
                     slack = 64 * eps * max(1.0, tmax) if ev.is_terminal else 0.0
                     if not any(lo - slack <= te <= hi + slack for te in times):
                         in_landing = term_step is not None and k2 >= len(t) - 1 - landing_rows and k >= len(t) - 1 - landing_rows
-                        mech = _attribute_landing(term_step, j, lo, hi) if in_landing else _attribute(trace, j, lo, hi)
+                        mech = _attribute_landing(term_step, j, lo, hi, requested=ev.direction) if in_landing else _attribute(trace, j, lo, hi)
                         rec.violate("missed_crossing", mech, dict(feats, ev_kind=ev.kind, scale_decade=int(np.floor(np.log10(abs(ev.s)))), crossing=kind),
                                     step=[float(t[k]), float(t[k2])], g_ends=[float(a), float(b)], reported_times=times[:6], event=ev.spec)
             k = k2 if kind == "boundary" else k + 1
@@ -262,13 +262,17 @@ def run_case(spec):
     return rec.out()
 
 
-def _attribute_landing(st, j, lo, hi):
+def _attribute_landing(st, j, lo, hi, requested=0):
     """a crossing over one of the sub-steps that land on a terminal root: the rolled-back step `st` is the only one event detection saw."""
     if st.get("fa") is None:
         return "unattributed_landing_crossing"
     fa, fb = st["fa"][j], st["fb"][j]
     if fa * fb > 0:
         return "landing_substeps_of_a_terminal_stop_are_not_monitored"    # even number of crossings inside the rolled-back step
+    if requested != 0 and fa * fb < 0 and (fb > fa) != (requested > 0):
+        # an odd number (>= 3) of crossings: over the WHOLE rolled-back step the function moves against the requested direction, which is what the
+        # detection saw and (correctly, for that step) filtered; the compatible crossing in between only exists on the landing sub-steps
+        return "landing_substeps_of_a_terminal_stop_are_not_monitored"
     r = st["roots"][j]
     tol = 1e-9 * max(1.0, abs(lo), abs(hi))
     if st["success"][j] and lo - tol <= r <= hi + tol:
